@@ -7,14 +7,22 @@
       text, block style when it contains newlines)."
 
    Statements only; every proof is `exact` of a lemma of Proofs/CommentTokensProofs.v.
+   The fragment now HAS Struct and Interface groups (struct / interface types): the bracketed
+   words of the sentence are covered too, for the whole grown fragment of Spec/MiniGo.v (no
+   restriction to the earlier constructors; C15_tokens_type is new).  [ty_ok] asks of a struct
+   tag that it is written as an interpreted string (the scanner model has no raw strings).
 
    THE OBJECTS (Spec/MiniGoComments.v).  [dec c c']: the tree c' is the tree c with comments
    added - statements `CStmt [CComment t]` between the items of multi-line groups (before every
    item, after the last one, any number), and `CComment t` appended to items of multi-line groups
    that are statements - and nothing else changed.  The multi-line groups of MiniGo are the
-   Blocks (bodies of func declarations and literals, if / else / for / range / block statements,
-   the body of a switch = its clauses, the body of a clause), the Defs of var ( ) / const ( ) and
-   the File.  [comment_dom t]: the text is in the domain of the property (= [in_domain] of
+   Blocks (bodies of func and method declarations and literals, if / else / for / range / block
+   statements, the body of a switch = its clauses, the body of a clause), the Defs of var ( ) /
+   const ( ), the Struct and Interface groups of struct / interface types WHEREVER a type stands
+   (type declarations, parameters, results, receivers, var declarations, composite literal
+   types, type assertions, nested in other types) and the File.  A decoration does not enter a
+   Dict (dec_dict: the keys and values of a keyed composite literal are left as they are; a
+   Dict writes its pairs itself, on one line or one per line, and has no Comment method).  [comment_dom t]: the text is in the domain of the property (= [in_domain] of
    Props/C15.v: C15_tokens_domain); every other byte is allowed, also NUL, control bytes and bytes
    that are not UTF-8: the scanner model GoStd/Tokens.v skips a line comment up to the newline and
    a block comment up to the first `*/` without looking at the bytes in between (go/scanner
@@ -173,9 +181,9 @@ Proof. vm_compute. repeat split; reflexivity. Qed.
 (* func f (x int) int { switch x { case 1: return "a//b"; g (func () {}) default: }
                         if x < -2 {} else { x ++ }; return x } *)
 Definition c15_prog : decl :=
-  DFunc (S "f") [(S "x", TName (S "int"))] (Some (TName (S "int")))
+  DFunc (S "f") [(S "x", TName (S "int"))] [TName (S "int")]
     [SSwitch None (Some c15_x)
-       [CCase (EInt 1) [] [SReturn [EStr (S "a//b")]; SExpr (ECall (EId (S "g")) [EFunc [] None []] false)];
+       [CCase (EInt 1) [] [SReturn [EStr (S "a//b")]; SExpr (ECall (EId (S "g")) [EFunc [] [] []] false)];
         CDefault []];
      SIf None (EBin c15_x BLt (EInt (-2))) [] (Some (SBlock [SIncDec c15_x true]));
      SReturn [c15_x]].
@@ -221,10 +229,16 @@ Proof.
   apply C15_tokens_example_is_decoration.
 Qed.
 
-(* a file: comments before, between and after the declarations and inside them *)
+(* a file: comments before, between and after the declarations and inside them - also between
+   and at the end of the fields of a struct type (one nested in a parameter of a method) and of
+   the methods of an interface type *)
 Definition c15_decls : list decl :=
   [DVars [(S "a", Some (TName (S "int")), Some (EInt 1)); (S "b", None, Some (EStr (S "/*")))]; c15_prog;
-   DType (S "T") (TMap (TName (S "string")) (TSlice (TName (S "int"))))].
+   DType (S "T") (TMap (TName (S "string")) (TSlice (TName (S "int"))));
+   DType (S "P") (TStruct [(S "X", TName (S "int"), [(S "k", S "`")]); (S "in", TStruct [(S "c", TChan CRecv (TName (S "int")), [])], [])]);
+   DType (S "I") (TIface [(S "M", ([(S "x", TName (S "int"))], [TName (S "int"); TName (S "error")])); (S "N", ([], []))]);
+   DMethod (S "p", TPtr (TName (S "P"))) (S "m") [(S "q", TStruct [(S "y", TName (S "int"), [])])] []
+     [SVar (S "k") None (Some (EKeyed (TName (S "P")) [(EId (S "X"), EInt 1); (EId (S "in"), ENil)]))]].
 Definition c15_file : file := saturate_file c15_text1 c15_text2 (build_file (S "p") c15_decls).
 
 Example C15_tokens_example_file :
@@ -233,3 +247,24 @@ Example C15_tokens_example_file :
   | Panic _ => False
   end.
 Proof. vm_compute. reflexivity. Qed.
+
+(* comments in a struct type, for the eye *)
+Example C15_tokens_example_struct :
+  c15_out (saturate (S "own") (S "end") (build_type (TStruct [(S "X", TName (S "int"), [])]))) =
+    S "struct{" ++ nl ++ S "// own" ++ nl ++ S "X int // end" ++ nl ++ S "// own" ++ nl ++ S "}" /\
+  golex (c15_out (saturate (S "own") (S "end") (build_type (TStruct [(S "X", TName (S "int"), [])])))) =
+    Some (tty (TStruct [(S "X", TName (S "int"), [])])).
+Proof. vm_compute. split; reflexivity. Qed.
+
+(* the same for a type standing alone *)
+Theorem C15_tokens_type : forall cfg, tables_ok = true -> forall (a : ty) c' ctx t t' s,
+  ty_ok a = true -> dec (build_type a) c' ->
+  render cfg ctx t c' = Ok (t', s) -> golex s = Some (tty a).
+Proof. exact dec_tokens_type. Qed.
+
+Print Assumptions C15_tokens_decl.
+Print Assumptions C15_tokens_stmt.
+Print Assumptions C15_tokens_expr.
+Print Assumptions C15_tokens_type.
+Print Assumptions C15_tokens_file.
+Print Assumptions C15_tokens_unchanged.
